@@ -112,8 +112,54 @@ def tail_probability_oracle(ctx, d, g, model, tp, cls):
         ctx.fail("oracle", "c13.tail_probability", d, {"left": left, "right": right, "promised": tp, "l": l, "r": r}, cls=cls)
 
 
+def nd_tail_probability_oracle(ctx, d, g, margins, h, tp, cls):
+    """multi-dimensional grids share one pair of bounds = (smallest left, largest right) root-searched bound over the
+    margins: every margin keeps at least the promised share of its tail mass, and on each side one margin attains it"""
+    l, r = g.truncations[0]
+    rights, lefts = [], []
+    for m in margins:
+        nu = m.levy_triplet.nu
+        rights.append(nu.integrate(h / 2, r) / nu.integrate(h / 2, np.inf))
+        lefts.append(nu.integrate(l, -h / 2) / nu.integrate(-np.inf, -h / 2))
+    bad = (min(rights) < tp - 1e-8 or min(lefts) < tp - 1e-8 or abs(min(rights) - tp) > 1e-8 or abs(min(lefts) - tp) > 1e-8)
+    if bad:
+        ctx.fail("oracle", "c13.tail_probability", d, {"what": "shared truncation bounds do not keep the promised tail probability for every margin",
+                                                      "left": lefts, "right": rights, "promised": tp, "l": l, "r": r}, cls=cls)
+
+
+def nd_grid_probe(ctx, rng, kmax):
+    """uniform / geometric grids built from copula models with unequal margins (dimension 2, 3)"""
+    pool = [("hem", {}), ("hem", dict(sigma=0.05, p=0.6, eta1=30.0, eta2=35.0, intensity=3.0)), ("merton", {}),
+            ("vg", {}), ("cgmy", {}), ("hem", dict(sigma=0.1, p=0.4, eta1=12.0, eta2=14.0, intensity=2.0))]
+    dim = rng.choice([2, 2, 3])
+    picks = [rng.choice(pool) for _ in range(dim)]
+    margins = [zoo.make_levy(f, p) for f, p in picks]
+    cm_ = zoo.make_copula_model(margins, zoo.make_copula(rng.choice(zoo.COPULAS)))
+    kind = rng.choice(["uniform", "geometric"])
+    h = rng.choice([0.05, 0.02])
+    tp = rng.choice([0.999, 0.99999])
+    d = dict(kind=kind + "_nd", dim=dim, h=h, tp=tp, margins=[[f, p] for f, p in picks])
+    cls = dict(kind=kind + "_nd")
+    try:
+        g, _ = zoo.make_grid(kind, cm_, h, truncation_probability=tp, nb=rng.choice([3, 5]))
+    except Exception as e:
+        ctx.branches[f"c13.ctor_raises:{kind}_nd:{type(e).__name__}"] += 1
+        return
+    ctx.count("c13.constructor", d, branch=kind + "_nd")
+    l0, r0 = g.truncations[0]
+    o0 = int(list(g.origin_coordinate)[0])
+    cls["side_points_le_1"] = bool(min(o0, len(g.axes[0]) - 1 - o0) <= 1)
+    cls["trunc_inside_h"] = bool(abs(l0) <= h or r0 <= h)
+    cls["kind"] = kind                      # the 1-d known findings of these constructors apply to the shared axis as well
+    nd_tail_probability_oracle(ctx, d, g, margins, h, tp, cls)
+    if wellformed_oracle(ctx, "c13.constructor.wellformed", d, g, cls) and len(g.axes[0]) <= 400:
+        refine_probe(ctx, d, g, 1, cls)
+
+
 def run(ctx):
     rng = ctx.rng
+    for _ in range(ctx.n(6, 40)):
+        nd_grid_probe(ctx, rng, 1)
     nmodels = ctx.n(10, 60)
     kmax = ctx.n(2, 4)
     hs = [0.2, 0.1, 0.05, 0.02]
@@ -191,6 +237,9 @@ def run(ctx):
             ctx.branches[f"c13.ctor_raises:credit_nd:{type(e).__name__}"] += 1
             continue
         ctx.count("c13.constructor", d, branch="credit_nd")
+        l_, r_ = g.truncations[0]
+        cls["mirror_exceeds_r"] = bool(sym and any(-ai + min(abs(l_ - ai) / 2, abs(ai + h) / 2) >= r_ for ai in a))
+        nd_tail_probability_oracle(ctx, d, g, margins, h, 0.99999, cls)
         if wellformed_oracle(ctx, "c13.constructor.wellformed", d, g, cls):
             s = snapshot(g)
             for i, ax in enumerate(s["axes"]):
